@@ -244,6 +244,21 @@ def c04_4(ctx: Ctx) -> RuleResult:
         ok = any(norm(s) == norm(ref) for s in subterms(rt))
         res.add(f, f.node, "ranking == argsort(where(failed, nan, values))[: count_nonzero(~failed)]", ok,
                 "" if ok else "failed realizations can be ranked (NaN not forced / not truncated to the success count)", construct=f"{f.name}: ranking of successes")
+        # the callers compute the failure flags from the raw evaluator values
+        for g, c_ in ctx.cg.callers(f):
+            ct = X.at(g, c_)
+            farg = None
+            fi = [i for i, p in enumerate(f.positional) if "failed" in p]
+            if fi and fi[0] < len(ct[2]):
+                farg = ct[2][fi[0]]
+            raw = [("param", g.qualname, p) for p in g.params if p not in ("self",)]
+            ok3 = (
+                farg is not None and farg[0] == "call" and farg[1] == G("numpy.isnan") and farg[2]
+                and farg[2][0][0] == "sub" and farg[2][0][1] in raw
+            )
+            res.add(g, c_, "the failure flags passed to the kernel are isnan(<raw values>[..., 0]) of the unmodified evaluator values", ok3,
+                    "" if ok3 else f"failure flags are `{show(farg, 80) if farg else '?'}`: computed after the NaN values were replaced (or from other data), failed realizations are ranked as if they had succeeded",
+                    construct=f"{g.name}: failure flags for {f.name}")
         # all index uses derive from that truncated ranking
         idxs = [i for i, _v in stores_in(rt)]
         ok2 = bool(idxs) and all(contains(i, lambda s: norm(s) == norm(ref)) for i in idxs)
